@@ -166,11 +166,12 @@ func (e *BinaryOpExpr) execEqual(kv KVPair, ctx *ExecuteCtx) (bool, error) {
 		if lok && rok {
 			return bytes.Equal(left, right), nil
 		}
-	case int, int8, int16, int32, int64, uint, uint8, uint16, uint32, uint64:
-		lint, lok := convertToInt(rleft)
-		rint, rok := convertToInt(rright)
-		if lok && rok {
-			return lint == rint, nil
+	case int, int8, int16, int32, int64, uint, uint8, uint16, uint32, uint64, float32, float64:
+		// Same rule as > >= < <=: two integers compare as integers,
+		// otherwise both sides compare as float64
+		ret, err := execNumberCompare(rleft, rright, "=")
+		if err == nil {
+			return ret, nil
 		}
 	case bool:
 		lbool, lok := rleft.(bool)
